@@ -186,15 +186,14 @@ Definition dec_ex (l : ltoken) : option N :=
   | _ => match dec_unary l with Some k => Some (2 * k)%N | None => None end
   end.
 
-(* (a + 11) * b between 1 and -c instance of number . d *)
+(* ( a + 11 ) * b between 1 and ( - c ) instance of number . d *)
 Definition tree_ex : tree :=
   Btw (Bin Mul (Bin Add (Atom 1) (Atom 2)) (Atom 3)) (Atom 0) (Path (Inst (Neg (Atom 5)) 0) 3).
 
 Lemma text_example :
   keys_ok keys_ex = true /\ flag_ok false (render_min tree_ex) = true /\ forallb (tok_wf keys_ex) (render_min tree_ex) = true /\
   unlex (conc_all keys_ex enc_ex (render_min tree_ex)) =
-    [40; 32; 97; 32; 43; 32; 49; 49; 32; 41; 32; 42; 32; 98; 32; 98; 101; 116; 119; 101; 101; 110; 32; 49; 32; 97; 110; 100; 32; 45; 32; 99; 32;
-     105; 110; 115; 116; 97; 110; 99; 101; 32; 111; 102; 32; 110; 117; 109; 98; 101; 114; 32; 46; 32; 100; 32]%N /\
+    [40; 32; 97; 32; 43; 32; 49; 49; 32; 41; 32; 42; 32; 98; 32; 98; 101; 116; 119; 101; 101; 110; 32; 49; 32; 97; 110; 100; 32; 40; 32; 45; 32; 99; 32; 41; 32; 105; 110; 115; 116; 97; 110; 99; 101; 32; 111; 102; 32; 110; 117; 109; 98; 101; 114; 32; 46; 32; 100; 32]%N /\
   parse_text keys_ex dec_ex (unlex (conc_all keys_ex enc_ex (render_min tree_ex))) = Some tree_ex.
 Proof. vm_compute. repeat split; reflexivity. Qed.
 
